@@ -122,7 +122,17 @@ var entries = []*entry{
 		return []byte(oj.JSON(v, &oj.Writer{Options: ojg.DefaultOptions})), nil
 	}},
 	{name: "oj.Marshal()", fixed: true, call: func(v any, _ *optVec, _ *sink) ([]byte, error) {
-		return oj.Marshal(v)
+		// the returned text is the caller's: it must still denote v after the
+		// pooled writer has served another call
+		out, err := oj.Marshal(v)
+		if err == nil {
+			snap := string(out)
+			_, _ = oj.Marshal(clobber)
+			if string(out) != snap {
+				return out, errOverwritten
+			}
+		}
+		return out, err
 	}},
 	{name: "oj.Marshal(*Writer)", fixed: true, call: func(v any, _ *optVec, _ *sink) ([]byte, error) {
 		return oj.Marshal(v, &oj.Writer{Options: ojg.DefaultOptions})
@@ -139,6 +149,11 @@ var entries = []*entry{
 		return w.buf, err
 	}},
 }
+
+var (
+	clobber        = []any{"################################################################", map[string]any{"#": "#"}}
+	errOverwritten = fmt.Errorf("the []byte returned by oj.Marshal changed when oj.Marshal was called again")
+)
 
 func entryByName(n string) *entry {
 	for _, e := range entries {
